@@ -6,6 +6,7 @@ import importlib
 import json
 import multiprocessing as mp
 import os
+import re
 import sys
 import time
 import traceback
@@ -162,7 +163,7 @@ def main(argv=None):
             continue
         for v in r.get("violations", []):
             k = is_known(known, pid, v["case"], v["obligation"])
-            path = os.path.join(VERIF, "replays", pid, f"{v['case']}__{v['obligation']}.json".replace("/", "_"))
+            path = os.path.join(VERIF, "replays", pid, re.sub(r"[^A-Za-z0-9_.,:=\[\]()+*^-]", "_", f"{v['case']}__{v['obligation']}.json"))
             if k:
                 known_hit.append((k, v))
                 continue
